@@ -117,6 +117,7 @@ type FnCtx struct {
 	curStrict bool
 	curLabelBase string
 	tailDup  int
+	touchedMu map[string]bool
 	known    map[string]map[string]bool // pc -> normalised facts assumed under exactly that pc
 	pcs      map[string]pcInfo
 	cmdGuard map[int]string
